@@ -1,42 +1,55 @@
 /-
   C16 — wait never fails.  In the reference semantics a running wait (`Frame.w`) answers every
-  symbol, end-of-input included, by consuming it and staying in (or leaving) the wait: no path of
-  its step raises a mismatch, enters a handler or fails.  With the equivalence certificate of
+  symbol, end-of-input included, by consuming it and staying in (or leaving) the wait, or by
+  completing: no path of its step raises a mismatch, and so none enters a no-match handler or
+  fails.  (The only condition a wait can raise is out-of-space, and only from the per-byte
+  actions of an enclosing `foreach … do` that appends.)  With the equivalence certificate of
   NmfuProps/C01.lean this transfers to the compiled machine.
 -/
 import NmfuProps.C01
 namespace Nmfu
 
+/-- what a wait does with a symbol it consumes: nothing extra at end-of-input, the enclosing
+    foreach's per-byte actions otherwise (out-of-space of those being the only raise) -/
+def Src.waitConsume (c : Src.Ctx) (fuel : Nat) (pend : List AEv) (r0 r : Rx) (pc : PerChar)
+    (rest : Kont) (K' : Kont) : STree :=
+  if c.x = symEnd && !c.o.waitEndForeach then Src.flushT pend (.leaf (.next K'))
+  else Src.flushT pend (Src.perCharTree c pc (.leaf (.next K')) (Src.raise c fuel [] true (.w r0 r pc :: rest)))
+
 /-- Dispatching any symbol on a continuation whose head is a running wait either consumes it
-    (next configuration) or — when the pattern is complete here, possibly as the empty match at a
-    restart — hands the symbol to what follows: the wait itself never raises, whatever the symbol
-    (end-of-input included) and whatever handlers enclose it. -/
-theorem C16_wait_never_raises (c : Src.Ctx) (fuel : Nat) (pend : List AEv) (r0 r : Rx) (rest : Kont) :
-    (∃ K', Src.disp c (fuel + 1) pend (.w r0 r :: rest) = Src.flushT pend (.leaf (.next K'))) ∨
-    Src.disp c (fuel + 1) pend (.w r0 r :: rest) = Src.disp c fuel pend rest := by
-  simp only [Src.disp]
+    (next configuration `K'`) or — when the pattern is complete here, possibly as the empty match
+    at a restart — hands the symbol to what follows: the wait itself never raises a mismatch,
+    whatever the symbol (end-of-input included) and whatever handlers enclose it. -/
+theorem C16_wait_never_raises (c : Src.Ctx) (fuel : Nat) (pend : List AEv) (r0 r : Rx) (pc : PerChar)
+    (rest : Kont) :
+    (∃ K', Src.disp c (fuel + 1) pend (.w r0 r pc :: rest) = Src.waitConsume c fuel pend r0 r pc rest K') ∨
+    Src.disp c (fuel + 1) pend (.w r0 r pc :: rest) = Src.disp c fuel pend rest := by
+  simp only [Src.disp, Src.waitConsume]
   split
-  · left; split <;> exact ⟨_, rfl⟩
+  · left; exact ⟨_, rfl⟩
   · split
     · right; rfl
     · split
-      · left; split <;> exact ⟨_, rfl⟩
+      · left; exact ⟨_, rfl⟩
       · split
         · right; rfl
         · left; exact ⟨_, rfl⟩
 
+/-- Without an enclosing foreach a consumed symbol costs nothing and raises nothing. -/
+theorem waitConsume_plain (c : Src.Ctx) (fuel : Nat) (pend : List AEv) (r0 r : Rx) (rest K' : Kont) :
+    Src.waitConsume c fuel pend r0 r {} rest K' = Src.flushT pend (.leaf (.next K')) := by
+  simp [Src.waitConsume, Src.perCharTree]
+
 /-- A pattern that cannot match the empty string is only ever left by consuming: every symbol is
     consumed by the wait. -/
-theorem C16_wait_consumes (c : Src.Ctx) (fuel : Nat) (pend : List AEv) (r0 r : Rx) (rest : Kont)
-    (hnn : r.nullable = false) (h0 : r0.nullable = false) :
-    ∃ K', Src.disp c (fuel + 1) pend (.w r0 r :: rest) = Src.flushT pend (.leaf (.next K')) := by
-  rcases C16_wait_never_raises c fuel pend r0 r rest with h | h
-  · exact h
-  · simp only [Src.disp, hnn, h0, Bool.false_eq_true, if_false] at h ⊢
-    split
-    · split <;> exact ⟨_, rfl⟩
-    · split
-      · split <;> exact ⟨_, rfl⟩
-      · exact ⟨_, rfl⟩
+theorem C16_wait_consumes (c : Src.Ctx) (fuel : Nat) (pend : List AEv) (r0 r : Rx) (pc : PerChar)
+    (rest : Kont) (hnn : r.nullable = false) (h0 : r0.nullable = false) :
+    ∃ K', Src.disp c (fuel + 1) pend (.w r0 r pc :: rest) = Src.waitConsume c fuel pend r0 r pc rest K' := by
+  simp only [Src.disp, Src.waitConsume, hnn, h0, Bool.false_eq_true, if_false]
+  split
+  · exact ⟨_, rfl⟩
+  · split
+    · exact ⟨_, rfl⟩
+    · exact ⟨_, rfl⟩
 
 end Nmfu
